@@ -909,6 +909,22 @@ func (l *Lifter) srBlock(stmts []ast.Stmt, counts map[string]*countVar, limited 
 					}
 				}
 			}
+		case *ast.IfStmt:
+			// if <test of the length prefix> { return r.Err } between the prefix and
+			// the limiter: a shortcut that leaves the announced body on the stream
+			if top && l.Lim.PrefixVar != "" && !l.Lim.Installed && x.Init == nil && x.Else == nil && len(x.Body.List) == 1 {
+				if ret, ok := x.Body.List[0].(*ast.ReturnStmt); ok && len(ret.Results) == 1 && Canon(ret.Results[0]) == "r.Err" {
+					if b, ok := unparen(x.Cond).(*ast.BinaryExpr); ok && Canon(b.X) == l.Lim.PrefixVar {
+						if n, isN := intLit(b.Y); isN {
+							l.Returns = append(l.Returns, "r.Err")
+							if !(b.Op == token.EQL && n == 0) {
+								l.Lim.ShortReturns = append(l.Lim.ShortReturns, x.Pos())
+							}
+							continue
+						}
+					}
+				}
+			}
 		case *ast.ReturnStmt:
 			r := ""
 			if len(x.Results) == 1 {
